@@ -1,0 +1,122 @@
+//go:build verif
+
+// Contracts for contract-based deductive verification (govc, /verif).
+// This file contains comments only; it adds no code to the package.
+
+package kademlia
+
+//@ opaque github.com/gauss-project/aurorafs/pkg/boson.Address as Addr
+
+//@ # ---- assumed here, proved in pkg/topology/pslice (C21): a PSlice is a set of peers ---------------
+//@ opaque github.com/gauss-project/aurorafs/pkg/topology/pslice.PSlice as PSet
+//@ spec func psMem(s PSet, x boson.Address) bool
+//@ extern func (*github.com/gauss-project/aurorafs/pkg/topology/pslice.PSlice).Exists
+//@   requires s != nil
+//@   ensures result == psMem(deref(s), addr)
+//@   assigns nothing
+//@ extern func (*github.com/gauss-project/aurorafs/pkg/topology/pslice.PSlice).Add
+//@   requires s != nil
+//@   assigns target(s)
+//@   ensures forall x boson.Address :: psMem(deref(s), x) <==> (old(psMem(deref(s), x)) || (exists i :: 0 <= i && i < len(addrs) && addrs[i] == x))
+//@ extern func (*github.com/gauss-project/aurorafs/pkg/topology/pslice.PSlice).Remove
+//@   requires s != nil
+//@   assigns target(s)
+//@   ensures forall x boson.Address :: psMem(deref(s), x) <==> (old(psMem(deref(s), x)) && x != addr)
+
+//@ # the neighbourhood depth is a function of the connected set, the radius and the reachability
+//@ # filter (its meaning is C22); recomputed = equal to that function of the current set
+//@ spec func depthOf(s PSet, radius int, filter int) int
+//@ func recalcDepth
+//@   trusted
+//@   requires peers != nil
+//@   ensures int(result) == depthOf(deref(peers), int(radius), ref(filter))
+//@   assigns nothing
+
+//@ # ---- bookkeeping that does not touch the peer sets or the depth (assumed frames) -----------------
+//@ func (*Kad).notifyManageLoop
+//@   trusted
+//@   assigns nothing
+//@ func (*Kad).notifyPeerSig
+//@   trusted
+//@   assigns nothing
+//@ func (*Kad).NotifyPeerState
+//@   trusted
+//@   assigns nothing
+//@ func (*Kad).Announce
+//@   trusted
+//@   assigns nothing
+//@ # what the admission inputs answered (ghosts)
+//@ ghost isProtected bool
+//@ ghost isOversaturated bool
+//@ ghost isBootMode bool
+//@ func (*Kad).IsProtectPeer
+//@   trusted
+//@   assigns ghost isProtected
+//@   ensures result == isProtected
+//@ func Kad.saturationFunc
+//@   trusted
+//@   assigns ghost isOversaturated
+//@   ensures result1 == isOversaturated
+//@ func (*Kad).randomPeer
+//@   trusted
+//@   assigns nothing
+//@ extern func (github.com/gauss-project/aurorafs/pkg/aurora.Model).IsBootNode
+//@   assigns ghost isBootMode
+//@   ensures result == isBootMode
+//@ extern func (*github.com/gauss-project/aurorafs/pkg/topology/kademlia/internal/metrics.Collector).Record
+//@   assigns nothing
+//@ extern func (*github.com/gauss-project/aurorafs/pkg/topology/kademlia/internal/waitnext.WaitNext).Remove
+//@   assigns nothing
+//@ extern func (*github.com/gauss-project/aurorafs/pkg/topology/kademlia/internal/waitnext.WaitNext).SetTryAfter
+//@   assigns nothing
+//@ extern func (github.com/gauss-project/aurorafs/pkg/p2p.Service).Disconnect
+//@   assigns nothing
+//@ extern func (github.com/gauss-project/aurorafs/pkg/addressbook.Interface).Remove
+//@   assigns nothing
+
+//@ spec func kadOK(k *Kad) bool = k.connectedPeers != nil && k.knownPeers != nil && k.connectedPeers != k.knownPeers && k.logger != nil && k.collector != nil && k.waitNext != nil && k.p2p != nil && k.addressBook != nil && k.saturationFunc != nil && k.metrics.TotalOutboundConnections != nil && k.metrics.TotalInboundConnections != nil && k.metrics.TotalInboundDisconnections != nil && k.metrics.PickCalls != nil && k.metrics.PickCallsFalse != nil
+//@ spec func conn(k *Kad, x boson.Address) bool = psMem(deref(k.connectedPeers), x)
+//@ spec func known(k *Kad, x boson.Address) bool = psMem(deref(k.knownPeers), x)
+//@ spec func depthFresh(k *Kad) bool = int(k.depth) == depthOf(deref(k.connectedPeers), int(k.radius), ref(k.peerFilter))
+
+//@ func (*Kad).Disconnected
+//@   property C24
+//@   requires k != nil && kadOK(k)
+//@   ensures dropped-from-connected: forall x boson.Address :: conn(k, x) <==> (old(conn(k, x)) && x != peer.Address)
+//@   ensures known-untouched: forall x boson.Address :: known(k, x) <==> old(known(k, x))
+//@   ensures depth-recomputed: depthFresh(k)
+
+//@ func (*Kad).onConnected
+//@   property C24
+//@   requires k != nil && kadOK(k)
+//@   ensures admitted-into-both-sets: result == nil ==> forall x boson.Address :: (conn(k, x) <==> (old(conn(k, x)) || x == peer.Address)) && (known(k, x) <==> (old(known(k, x)) || x == peer.Address))
+//@   ensures failed-announce-changes-nothing: result != nil ==> forall x boson.Address :: (conn(k, x) <==> old(conn(k, x))) && (known(k, x) <==> old(known(k, x)))
+//@   ensures depth-recomputed: result == nil ==> depthFresh(k)
+
+//@ func (*Kad).Outbound
+//@   property C24
+//@   requires k != nil && kadOK(k) && peer.Mode.Bv != nil
+//@   ensures connected-only-grows-by-the-peer: forall x boson.Address :: (conn(k, x) ==> old(conn(k, x)) || x == peer.Address) && (old(conn(k, x)) ==> conn(k, x))
+//@   ensures connected-means-known: conn(k, peer.Address) && !old(conn(k, peer.Address)) ==> known(k, peer.Address)
+//@   ensures others-known-untouched: forall x boson.Address :: x != peer.Address ==> (known(k, x) <==> old(known(k, x)))
+//@   ensures depth-recomputed: conn(k, peer.Address) && !old(conn(k, peer.Address)) ==> depthFresh(k)
+
+//@ func (*Kad).DisconnectForce
+//@   property C24
+//@   requires k != nil && kadOK(k)
+//@   ensures removed-from-both-sets: result == nil ==> forall x boson.Address :: (conn(k, x) <==> (old(conn(k, x)) && x != addr)) && (known(k, x) <==> (old(known(k, x)) && x != addr))
+//@   ensures failed-changes-nothing: result != nil ==> forall x boson.Address :: (conn(k, x) <==> old(conn(k, x))) && (known(k, x) <==> old(known(k, x)))
+//@   ensures depth-recomputed: result == nil ==> depthFresh(k)
+
+//@ # admission of an inbound connection: beyond the bin's saturation limit only protected peers,
+//@ # forced connections and boot-node mode (which evicts a random peer first) are let in
+//@ func (*Kad).Connected
+//@   property C24
+//@   requires k != nil && kadOK(k)
+//@   ensures oversaturated-bin-refuses-unprotected: isOversaturated && !isProtected && !isBootMode && !forceConnection ==> result != nil
+//@   callassert Kad.onConnected admitted-only-with-room-or-exemption: !isOversaturated || isProtected || isBootMode || forceConnection
+
+//@ func (*Kad).Pick
+//@   property C24
+//@   requires k != nil && kadOK(k)
+//@   ensures picked-exactly-with-room-or-exemption: result <==> (isBootMode || isProtected || !isOversaturated)
